@@ -417,8 +417,11 @@ class Engine:
             "wall_s": round(time.time() - self.t0, 2),
             "violations": violations,
         }
-        os.makedirs(os.path.join(VERIF, "evidence"), exist_ok=True)
-        with open(os.path.join(VERIF, "evidence", p.id + ".json"), "w", encoding="utf-8") as f:
+        # evidence/ only ever describes runs against /repo itself; a run against a scratch copy (COBA_REPO, used
+        # for the seeded-change self-tests) leaves its record under replays/ (ignored by git)
+        evdir = os.path.join(VERIF, "evidence") if os.path.realpath(REPO) == os.path.realpath("/repo") else os.path.join(VERIF, "replays", "_scratch_evidence")
+        os.makedirs(evdir, exist_ok=True)
+        with open(os.path.join(evdir, p.id + ".json"), "w", encoding="utf-8") as f:
             json.dump(ev, f, indent=1, default=str)
         self.say("%s tier=%s seed=%d: %d cases, %d distinct non-trivial, theorems %d/%d, build_ok=%s, B-fails %d (known %d), A/C-fails %d, exit %d, %.1fs" % (
             p.id, tier, self.seed, stats["evaluations"], len(stats["nontrivial"]), leanres["discharged"], len(leanres["theorems"]),
